@@ -19,6 +19,8 @@ const TVFS_FOLDER_SIZE_MASK: u32 = 0x7FFF_FFFF;
 const NODE_VALUE_MARKER: u8 = 0xFF;
 /// Path separator byte.
 const PATH_SEPARATOR: u8 = 0x00;
+/// Maximum folder nesting accepted by the parser (real path tables nest ~10 deep).
+const MAX_FOLDER_DEPTH: usize = 256;
 
 /// Path table storing the recursive prefix tree and resolved file entries.
 #[derive(Debug, Clone)]
@@ -70,6 +72,7 @@ impl PathTable {
             &mut String::new(),
             &mut files,
             &mut root,
+            0,
         )?;
 
         Ok(Self {
@@ -112,6 +115,7 @@ fn parse_directory(
     current_path: &mut String,
     files: &mut Vec<PathFileEntry>,
     tree_node: &mut PathTreeNode,
+    depth: usize,
 ) -> TvfsResult<()> {
     let mut pos = start;
 
@@ -216,6 +220,12 @@ fn parse_directory(
             if children_end > end {
                 return Err(TvfsError::PathTableTruncated(pos));
             }
+            if depth >= MAX_FOLDER_DEPTH {
+                return Err(TvfsError::InvalidPathNode(
+                    pos - 4,
+                    format!("folder nesting exceeds {MAX_FOLDER_DEPTH} levels"),
+                ));
+            }
 
             let mut child_tree = PathTreeNode {
                 name: name.clone(),
@@ -230,6 +240,7 @@ fn parse_directory(
                 &mut full_path.clone(),
                 files,
                 &mut child_tree,
+                depth + 1,
             )?;
 
             tree_node.children.push(child_tree);
